@@ -151,7 +151,7 @@ CHECKS = {
         "total charge, symmetry object, sub-index structure with equal table, dtype) every history of up to 2 events over the full alphabet (88 events) and up to 3 over a core alphabet is executed from a cold state "
         "under fuse-cache sizes 0, 1, 2, 8192 x sector limits 1, 512 (and through the environment variable in a fresh interpreter); the last result must equal that event's result in a cold, cache-less state. System "
         "state = ordered fuse-cache keys, argument sets seen by every lru_cache (recorded by wrapping), hash-memo flags of the shared index objects, default mode. (b) default_tensordot_mode: every initial mode x "
-        "nesting <=2 x body outcome restores the mode and propagates the exception. (c) Eight two-thread scenarios on shared operands (same cache key cold, mutually evicting keys with maxsize 1, fused contractions, "
+        "nesting <=2 x body outcome restores the mode and propagates the exception. (c) Ten two-thread scenarios on shared operands (same cache key cold, mutually evicting keys with maxsize 1, two different arrays with equal directions and groups, fused contractions, "
         "fuse vs reshape, svd_truncated vs fuse, fermionic lazy signs, eigh vs contraction of a shared matrix with pending signs) are run under every schedule with at most one preemption, scheduling points = every line of library code and every opcode in the cache / "
         "hash-memo / mode functions (~11k schedules): results must equal the sequential ones, operands stay bit-identical, no exception.",
    note="Trusted: the baton scheduler serialises threads (sequential consistency at line / opcode granularity); real parallelism inside numpy with the GIL released and free-threaded builds are not modelled. Per execution all caches are cleared and operands rebuilt so prefixes replay deterministically."),
